@@ -296,7 +296,7 @@ example : getMaxLineLength (6, 1, 0) = .ok 80 ∧ getMaxLineLength (5, 1, 60) = 
     getMaxLineLength (5, 1, 0) = .error .unsupportedFeature := by
   refine ⟨?_, ?_, ?_, ?_, ?_⟩ <;> rfl
 
-/-- C10_title_message_width — title and message lines are cut to at most limit-1 columns. -/
+/-- C10_title_message_width — title and message lines are cut to at most limit columns (all of them are kept since the repair of mcnp_input.py: limit-1 before). -/
 theorem sliceTo_length (s : Str) (k : Int) (n : Nat) (h0 : 0 ≤ k) (h : k ≤ n) : (sliceTo s k).length ≤ n := by
   unfold sliceTo
   split
@@ -335,7 +335,7 @@ theorem C10_title_message_width (v : Version) (n : Nat) (hn : getMaxLineLength v
         simp only [List.mem_cons, List.mem_map] at hl
         rcases hl with hl | ⟨x, _, hx⟩
         · subst hl
-          have := sliceTo_length m ((n : Int) - 10) (n - 10) (by omega) (by omega)
+          have := sliceTo_length m ((n : Int) - 9) (n - 9) (by omega) (by omega)
           simp only [List.length_append]
           have h9 : "MESSAGE: ".toList.length = 9 := by decide
           omega
